@@ -261,6 +261,25 @@ impl<'a> Sess<'a> {
         }
         to
     }
+    /// the same further items into a sketch and its decoded copy: estimate and bounds stay bit-identical
+    pub fn cont(&mut self, a: usize, b: usize, rng: &mut Rng, n: usize) {
+        for _ in 0..n {
+            if self.dead {
+                return;
+            }
+            let x = rng.next();
+            let lgk = self.get(a).lg_k();
+            let (r, c) = row_col_of(x, lgk);
+            self.upd(a, r, c, Some(x));
+            self.upd(b, r, c, Some(x));
+        }
+        if self.dead {
+            return;
+        }
+        let (ta, tb) = (toks(&seven(self.get(a))), toks(&seven(self.get(b))));
+        let same = ta == tb && self.get(a).serialize() == self.get(b).serialize();
+        self.out.ev(json!({"op":"PCmp","a":a,"b":b,"same":same,"tok":[ta, tb]}));
+    }
     pub fn new_union(&mut self, lgk: u8) -> usize {
         let id = self.un.len();
         self.un.push(CpcUnion::new(lgk));
@@ -520,7 +539,14 @@ pub fn record(args: &Args) {
                 let id = s.new_sketch(lgk);
                 stream_public(&mut s, &mut rng, id, lgk, (60 * k).min(if thorough { 20000 } else { 6000 }), 97);
                 let r = s.rt(id);
+                s.cont(id, r, &mut rng, 60);
                 stream_public(&mut s, &mut rng, r, lgk, 50, 25);
+                // round trips at the start of a sketch's life: empty, then after 1, 2, 3 items
+                let e = s.new_sketch(lgk);
+                for step in 0..4 {
+                    let c = s.rt(e);
+                    s.cont(e, c, &mut rng, if step == 0 { 5 } else { 1 });
+                }
             }
             for &lgk in &[4u8, 4, 5, 6] {
                 let mut s = Sess::new(&mut out, "cpc-crafted-walk");
